@@ -1,6 +1,7 @@
 import ComposeVerif.Ops.Common
 import ComposeVerif.Model.Trav
 import ComposeVerif.Model.DepGraph
+import ComposeVerif.Model.TravProj
 /-!
 line-protocol ops for C13
 
@@ -53,15 +54,6 @@ def natList (j : Json) (k : String) : List Nat :=
   match j.getObjVal? k with
   | .ok (.arr a) => a.toList.filterMap fun e => e.getNat?.toOption
   | _ => []
-
-/-- edges are `(a, b)` = "a depends on b" -/
-def mkGraph (n : Nat) (edges : List (Nat × Nat)) (reverse : Bool) (roots : List Nat) : Graph :=
-  let deps : V → List V := fun v => (edges.filter (·.1 == v)).map (·.2)
-  let dependents : V → List V := fun v => (edges.filter (·.2 == v)).map (·.1)
-  { verts := List.range n
-    pre := if reverse then dependents else deps
-    post := if reverse then deps else dependents
-    skip := skipOf deps n roots }
 
 def subStr (w : String) (limit : Option Nat) (s : St) : Option Sched → (noneStr : String) → String
   | none, ns => w ++ ":" ++ ns
@@ -209,14 +201,34 @@ def replayTrace (g : Graph) (lim : Option Nat) (evs : List String) : Json :=
   else
   go (init g) 0 evs
 
+def getInt (j : Json) (k : String) : Int :=
+  match j.getObjVal? k with
+  | .ok v => match v.getInt? with | .ok i => i | _ => 0
+  | _ => 0
+
+/-- the project the harness builds for a `trav.sched` case: services `0 … n-1`, every edge `(a, b)` a required
+dependency of `a` on `b` -/
+def projOfEdges (n : Nat) (edges : List (Nat × Nat)) : CV.DepGraph.Proj :=
+  ⟨(List.range n).map (fun v => ⟨v, (edges.filter (·.1 == v)).map (fun e => ⟨e.2, true⟩)⟩), []⟩
+
+/-- since round 5 the replayed graph is the one `TravProj.plan` (the model of `CollectInDependencyOrder`, about which
+`Props/C13Collect.lean` speaks) computes from the project -/
+def planOfArgs (args : Json) : CV.TravProj.Plan :=
+  CV.TravProj.plan (projOfEdges (getNat args "n") (natPairs args "edges")) (getBool args "reverse") (getInt args "limit")
+    (natList args "roots")
+
+def emptyGraph : Graph := { verts := [], pre := fun _ => [], post := fun _ => [], skip := fun _ => false }
+
 def graphOfArgs (args : Json) : Graph × Option Nat :=
-  let n := getNat args "n"
-  let lim := getNat args "limit"
-  (mkGraph n (natPairs args "edges") (getBool args "reverse") (natList args "roots"),
-   if lim == 0 then none else some lim)
+  match planOfArgs args with
+  | .walk g lim => (g, lim)
+  | _ => (emptyGraph, none)
 
 def replay : Handler := fun args =>
   let (g, lim) := graphOfArgs args
+  if let .refused cls := planOfArgs args then
+    Json.mkObj [("traces", (0 : Nat)), ("bad", Json.arr #[Json.mkObj [("why", "the model refuses this project: " ++ cls)]]), ("nbad", (1 : Nat))]
+  else
   let traces : List (List String) := match args.getObjVal? "traces" with
     | .ok (.arr a) => a.toList.map fun t => match t with
       | .arr es => es.toList.filterMap fun e => match e with | .str s => some s | _ => none
@@ -260,6 +272,29 @@ def newgraph : Handler := fun args =>
   let outs := (CV.DepGraph.outcomes p).map fun o => o.cls ++ ":" ++ " ".intercalate ((sortNat o.changed).map ns)
   Json.arr ((outs.eraseDups).map Json.str).toArray
 
-def handlers : List (String × Handler) := [("trav.replay", replay), ("trav.skips", skips), ("trav.newgraph", newgraph)]
+/-! `trav.plan`: what `CollectInDependencyOrder` sets up before `walk`, for a general project (optional / missing /
+disabled dependencies) and all options.  `classes` = every outcome class of `newGraph`+`checkCycle` over all iteration
+orders of the Go maps; when the project is accepted the plan does not depend on the order. -/
+
+def natArr (l : List Nat) : Json := Json.arr ((sortNat l).eraseDups.map (fun v => Json.num (JsonNumber.fromNat v))).toArray
+
+def planOp : Handler := fun args =>
+  let svcs : List CV.DepGraph.Svc := match args.getObjVal? "services" with
+    | .ok (.arr a) => a.toList.map svcOfJson
+    | _ => []
+  let p : CV.DepGraph.Proj := ⟨svcs, natList args "disabled"⟩
+  -- all iteration orders: exponential, only on request (small projects)
+  let classes := if getBool args "small" then ((CV.DepGraph.outcomes p).map (·.cls)).eraseDups else []
+  let base := [("classes", Json.arr (classes.map Json.str).toArray)]
+  match CV.TravProj.plan p (getBool args "reverse") (getInt args "limit") (natList args "roots") with
+  | .refused cls => Json.mkObj (base ++ [("plan", Json.str "refused"), ("cls", Json.str cls)])
+  | .empty => Json.mkObj (base ++ [("plan", Json.str "empty")])
+  | .walk g lim =>
+    let per := fun (f : V → List V) => Json.arr (g.verts.map (fun v => Json.arr #[Json.num (JsonNumber.fromNat v), natArr (f v)])).toArray
+    Json.mkObj (base ++ [("plan", Json.str "walk"), ("verts", natArr g.verts), ("pre", per g.pre), ("post", per g.post),
+      ("ext", natArr (CV.TravProj.extremities g)), ("skip", natArr (g.verts.filter g.skip)),
+      ("limit", Json.num (JsonNumber.fromNat (lim.getD 0)))])
+
+def handlers : List (String × Handler) := [("trav.replay", replay), ("trav.skips", skips), ("trav.newgraph", newgraph), ("trav.plan", planOp)]
 
 end CV.Ops.C13
